@@ -48,6 +48,9 @@ def make_models():
     from .plug_np_c07 import C07Models  # C07: matrix values (dense/sparse), assumed scipy block contracts, abstract matrix ring (gated on `c07` contracts / own types)
 
     m.plugins.insert(0, C07Models())
+    from .plug_np_c07 import C07RingModels  # C07 algebra: uninterpreted matrix ring (gated on `c07 = "ring"` contracts / its own heap objects)
+
+    m.plugins.insert(0, C07RingModels())
     from .plug_hdf import HdfModels  # C11: abstract h5py node (hooks gated on its own h5py.Group objects / on module gemseo.algos._hdf_database)
 
     m.plugins.insert(0, HdfModels())
